@@ -238,7 +238,7 @@ class Program:
             path = os.path.join(os.path.dirname(os.path.abspath(__file__)), "known_functions.txt")
             with open(path) as fh:
                 Program._known = {l.strip() for l in fh if l.strip()}
-        return qual in Program._known
+        return qual in Program._known or qual in getattr(self, "extra_known", ())
 
     def digest(self) -> str:
         h = hashlib.sha256()
@@ -726,6 +726,32 @@ class Program:
                 return len(F(e.args[0]))
             if fname == "int" and len(e.args) == 1:
                 return int(F(e.args[0]))
+        if isinstance(e, (ast.DictComp, ast.ListComp, ast.SetComp)) and len(e.generators) == 1 and not e.generators[0].is_async:
+            # a table computed once from constants: {k: k - 16 for k in range(17, 31)}
+            g = e.generators[0]
+            items = F(g.iter)
+            if isinstance(items, dict):
+                items = list(items)
+            if not isinstance(items, (range, tuple, list, bytes)) or len(items) > 512:
+                raise NotConst("comprehension source")
+            out = []
+            for it in items:
+                env = dict(local or {})
+                if isinstance(g.target, ast.Name):
+                    env[g.target.id] = it
+                elif isinstance(g.target, (ast.Tuple, ast.List)) and isinstance(it, (tuple, list)) and len(it) == len(g.target.elts) \
+                        and all(isinstance(x, ast.Name) for x in g.target.elts):
+                    env.update({x.id: v for x, v in zip(g.target.elts, it)})
+                else:
+                    raise NotConst("comprehension target")
+                if all(self.fold(c, m, cls, env, depth + 1) for c in g.ifs):
+                    if isinstance(e, ast.DictComp):
+                        out.append((self.fold(e.key, m, cls, env, depth + 1), self.fold(e.value, m, cls, env, depth + 1)))
+                    else:
+                        out.append(self.fold(e.elt, m, cls, env, depth + 1))
+            if isinstance(e, ast.DictComp):
+                return dict(out)
+            return tuple(out) if isinstance(e, ast.ListComp) else frozenset(out)
         raise NotConst(norm(e))
 
     def _fold_entity(self, r, depth):
